@@ -127,6 +127,8 @@ pub struct FaultOutcome {
     pub panic_invoked: bool,
     pub user_saw_panic: bool,
     pub quiesce_timeouts: u64,
+    /// the flagged executor was invoked although the request does not need it
+    pub speculative_panic: bool,
 }
 
 enum ChildOut {
@@ -177,9 +179,15 @@ async fn run_fault<B: Backend>(
         } else {
             match (st, fc.kind) {
                 (Step::Query(n), FaultKind::CancelQuery | FaultKind::Panic(_)) => {
-                    r.defuse(&[*n]).await;
+                    // known finding KF1 is excluded by construction for every
+                    // root requested in this step, the sibling included
+                    let mut roots = vec![*n];
+                    roots.extend(fc.sibling);
+                    r.defuse(&roots).await;
                     if let FaultKind::Panic(node) = fc.kind {
-                        r.sh.panic_nodes.lock().insert(node, 1);
+                        // the flagged executor panics on every invocation
+                        // made under the faulted request
+                        r.sh.panic_nodes.lock().insert(node, u32::MAX);
                         injected = true;
                     }
                     let _ = r.tracked().await;
@@ -258,10 +266,21 @@ async fn run_fault<B: Backend>(
                             inv.node == node && inv.status == InvStatus::Unwound
                         });
                         r.sh.panic_nodes.lock().clear();
-                        if out.panic_invoked && !out.user_saw_panic && out.violation.is_none() {
+                        // The engine may invoke the flagged executor
+                        // speculatively (while re-verifying a dependency the
+                        // recomputed caller no longer has) and then swallow
+                        // the panic; but when the from-scratch evaluation of
+                        // the request needs that node, no value can exist
+                        // without a successful run of it.
+                        let needed = r.reaches(*n, node)
+                            || fc.sibling.is_some_and(|sn| r.reaches(sn, node));
+                        if out.panic_invoked && !out.user_saw_panic && needed && out.violation.is_none() {
                             out.violation = Some(format!(
-                                "faulted step {i}: the executor of node {node} panicked under this request but the caller received a value"
+                                "faulted step {i}: the executor of node {node} panicked under this request and the request needs it, but the caller received a value"
                             ));
+                        }
+                        if out.panic_invoked && !needed {
+                            out.speculative_panic = true;
                         }
                         if !out.panic_invoked && out.user_saw_panic && out.violation.is_none() {
                             out.violation = Some(format!(
@@ -272,7 +291,41 @@ async fn run_fault<B: Backend>(
                     // the tracked engine may hold a half-finished local state
                     r.tracked = None;
                     r.judge_log = true;
+                    // External inputs whose executor completed under the
+                    // faulted request for the first time: the engine may have
+                    // published that result or dropped it with the request
+                    // (then the next demand reads the world again). Both are
+                    // allowed; the two agree as long as the world has not
+                    // moved, so the demand is made right away, which pins the
+                    // frozen value in the model and in the engine alike.
+                    let unsettled: Vec<u32> = {
+                        let log = r.sh.log.lock();
+                        log[r.log_pos()..]
+                            .iter()
+                            .filter(|inv| {
+                                prog.nodes[inv.node as usize].kind == Kind::Xt
+                                    && !r.model.xt_frozen.contains_key(&inv.node)
+                            })
+                            .map(|inv| inv.node)
+                            .collect()
+                    };
+                    let completed_here: Vec<u32> = {
+                        let log = r.sh.log.lock();
+                        log[r.log_pos()..]
+                            .iter()
+                            .filter(|inv| inv.status == InvStatus::Completed)
+                            .map(|inv| inv.node)
+                            .collect()
+                    };
                     r.process_log(StepCtx::Query);
+                    if out.cancelled || out.user_saw_panic {
+                        // their executors completed, but the request was cut
+                        // short: published or not is the engine's choice
+                        r.model.publish_uncertain.extend(completed_here);
+                        for x in unsettled {
+                            r.step_quiet_query(x).await;
+                        }
+                    }
                 }
                 (Step::Session { ops, by_drop }, FaultKind::CancelSessionCall(call)) => {
                     faulty_session(&mut r, ops, *by_drop, call, k, &mode, &tape, &mut out).await;
@@ -341,8 +394,6 @@ async fn faulty_session<B: Backend>(
     use std::sync::atomic::Ordering;
     r.tracked = None;
     let engine = r.engine.as_ref().unwrap().clone();
-    r.model.epoch += 1;
-    r.sh.epoch.store(r.model.epoch, Ordering::SeqCst);
     let pendings = Rc::new(Cell::new(0u64));
     // inputs whose value is uncertain after a cancelled call: (old, new)
     let mut uncertain_in: BTreeMap<u32, (Option<Val>, Val)> = BTreeMap::new();
@@ -367,9 +418,14 @@ async fn faulty_session<B: Backend>(
 
     let Some(mut s) = maybe_cancel!(call == usize::MAX, engine.input_session()) else {
         // the session never came into being
-        r.process_log(StepCtx::Session);
+        r.process_log(StepCtx::Query);
         return;
     };
+    // stragglers of earlier queries ran against the old inputs (see
+    // Runner::session)
+    r.process_log(StepCtx::Query);
+    r.model.epoch += 1;
+    r.sh.epoch.store(r.model.epoch, Ordering::SeqCst);
     for (oi, op) in ops.iter().enumerate() {
         let this = call == oi;
         match op {
@@ -525,6 +581,9 @@ pub fn run_struct(fc: &FaultCase, tier: Tier, only_k: Option<u64>) -> CaseResult
                     cr.signature = Some(format!("k={k:?}"));
                 }
                 cr.counters.push(("quiesce_timeouts", o.quiesce_timeouts));
+                if o.speculative_panic {
+                    cr.labels.push("panic_in_speculative_reverification");
+                }
                 Some(o)
             }
         }
